@@ -100,7 +100,7 @@ def r1_fresh(R) -> None:
     res = _result_name(f)
     ds = f.assigns_to(res)
     if not ds:
-        R.violation(VR, 'fresh:?', f'`{res}` is never assigned', where=f.fi.where)
+        R.violation(VR, 'fresh:?', f'`{res}` is never assigned', where=f.fi.where, mismatch=True)
     for d in ds:
         v = d.ast.value
         if is_self_call(v, 'copy') and not v.args:
@@ -168,7 +168,7 @@ def r2_fill_defaults(R) -> None:
         for kind, (dflt, fn) in want.items():
             row = rows.get(kind)
             if row is None:
-                R.violation(VR, f'dtype-row-missing:{kind}', f'no fill rule for dtype family `{kind}` (such series cannot hold NaN)', where=f.where(stores[0]))
+                R.violation(VR, f'dtype-row-missing:{kind}', f'no fill rule for dtype family `{kind}` (such series cannot hold NaN)', where=f.where(stores[0]), mismatch=True)
                 continue
             none_v = other_v = None
             if isinstance(row, ast.IfExp) and text(row.test) == f'{text(base)} is None':
@@ -219,7 +219,7 @@ def r2_fill_defaults(R) -> None:
         ci = layers.index('caller') if 'caller' in layers else None
         if not pos:
             R.violation(MR, f'missing:model-default:{key}', f"no default for `{key}` reaches the base reindex: new periods of `{key}` get the dtype default, not the initial value",
-                        where=g.fi.where)
+                        where=g.fi.where, mismatch=True)
             continue
         top = max(pos)
         R.check(ci is not None and ci > top, MR, f'model-default-keeps-caller:{key}', f"a caller-supplied fill for `{key}` is kept",
@@ -544,6 +544,47 @@ def r5_position_map(R) -> None:
     R.check(ok, VR, 'new-span', 'the result carries the new span', "`reindexed.__dict__['span'] = span` not found", where=f.fi.where)
 
 
+def r8_label_maps_keep_first(R) -> None:
+    """The position of a label in a span is the position of its *first* occurrence (`list.index()`, which `obj[name, label]`
+    uses).  A dictionary built from the labels of a span in forward order keeps the *last* position of a repeated label:
+    `dict(zip(span, range(len(span))))`, `{label: i for i, label in enumerate(span)}`.  Spans with repeated labels are in
+    the quantifier of this property."""
+    SPAN = ('span', 'self.span', "self.__dict__['span']")
+    n_seen = 0
+    for fi in R.repo.all_functions():
+        if fi.module.name != 'fsic.core.containers':
+            continue
+        f = None
+        for x in ast.walk(fi.node):
+            forward = None
+            if is_call(x, 'dict') and len(x.args) == 1 and is_call(x.args[0], 'zip') and len(x.args[0].args) == 2:
+                a0, a1 = x.args[0].args
+                if (is_call(a1, 'range') or is_call(a1, 'itertools.count', 'count')) and not is_call(a0, 'reversed'):
+                    forward = a0
+            elif isinstance(x, ast.DictComp) and len(x.generators) == 1 and is_call(x.generators[0].iter, 'enumerate') and isinstance(x.generators[0].target, ast.Tuple) \
+                    and len(x.generators[0].target.elts) == 2 and text(x.key) == text(x.generators[0].target.elts[1]) and text(x.value) == text(x.generators[0].target.elts[0]) \
+                    and not x.generators[0].ifs:
+                forward = x.generators[0].iter.args[0] if x.generators[0].iter.args else None
+            if forward is None:
+                continue
+            if f is None:
+                f = Fn(R, fi.qualname)
+            node = [n for n in f.cfg.nodes if n.ast is not None and any(y is x for y in ast.walk(n.ast))]
+            src = f.etext(node[0].id, forward) if node else text(forward)
+            if src not in SPAN and text(forward) not in SPAN:
+                continue
+            n_seen += 1
+            # the old span of the object (not the new one passed in): the labels that are looked up
+            R.violation(fi.qualname, 'label-map-keeps-last:' + text(x)[:50],
+                        f'`{text(x)[:70]}` maps each label of the span to a position in forward order, so a label that occurs more than once is mapped to its *last* position, '
+                        f'while `index()` - and with it `obj[name, label]` - finds the first: for the span [2000, 2001, 2002, 2001] the reindexed object would hold, under 2001, '
+                        f'the values of position 3 instead of position 1', where=f'{fi.module.relpath}:{getattr(x, "lineno", 0)}')
+    fixture = ast.parse('d = dict(zip(span, range(len(span))))').body[0].value
+    ok = is_call(fixture, 'dict') and is_call(fixture.args[0], 'zip')
+    R.check(ok, 'selftest/fixture', 'positive-control', 'the forward label-map matcher fires on the built-in fixture', 'positive control did not match', decided=True)
+    R.ok('fsic/core/containers.py', f'no dictionary from span labels to positions is built in forward order ({n_seen} found)', trivial=(n_seen == 0))
+
+
 def r7_pandas_twin_defaults(R) -> None:
     """With its default arguments the pandas-based reindex() is the base reindex(): the pass that re-fills each variable through
     Series.reindex() (NaN for new periods, whatever the dtype) must not run for a variable that has neither a fill method
@@ -594,3 +635,4 @@ def run(R) -> None:
     R.rule('C12.R5', lambda: r5_position_map(R))
     R.rule('C12.R6', lambda: r6_no_shared_state(R))
     R.rule('C12.R7', lambda: r7_pandas_twin_defaults(R))
+    R.rule('C12.R8', lambda: r8_label_maps_keep_first(R))
